@@ -1743,6 +1743,36 @@ class FragmentedPictureRestarted(ConformanceError):
         )
 
 
+class FragmentSlicesBeforeInitialFragment(ConformanceError):
+    """
+    (14.2) A fragment containing picture slices (fragment_slice_count!=0)
+    arrived before any fragment with fragment_slice_count==0 in the sequence.
+
+    The (byte_offset, next_bit_offset) offset of the offending fragment header
+    and its fragment_slice_count are included as arguments.
+    """
+
+    def __init__(self, this_fragment_offset, fragment_slice_count):
+        self.this_fragment_offset = this_fragment_offset
+        self.fragment_slice_count = fragment_slice_count
+        super(FragmentSlicesBeforeInitialFragment, self).__init__()
+
+    def explain(self):
+        return """
+            A picture fragment containing {} slice{} (at bit offset {}) was
+            encountered before any picture fragment with
+            fragment_slice_count=0 in this sequence (14.2).
+
+            Every fragmented picture must begin with a fragment with
+            fragment_slice_count=0 which carries the transform parameters.
+
+            Was the first fragment of a fragmented picture omitted?
+        """.format(
+            self.fragment_slice_count,
+            "" if self.fragment_slice_count == 1 else "s",
+            to_bit_offset(*self.this_fragment_offset),
+        )
+
 class SequenceContainsIncompleteFragmentedPicture(ConformanceError):
     """
     (14.2) Sequences must not terminate mid-fragmented picture.
